@@ -67,6 +67,14 @@ Theorem C19_set_gates_same_encoding :
 Proof. exact set_gates_same_encoding. Qed.
 Print Assumptions C19_set_gates_same_encoding.
 
+(* ComputedValue.store_into(dst) — ReturnedValue, ArrayElement, TupleElement: the destination must have
+   the layout (hence the encodings) of the produced spec. *)
+Theorem C19_store_into_same_layout :
+  forall src dst : ty, store_into_admits src dst = true ->
+    canon src = canon dst /\ forall v, arc4_encode src v = arc4_encode dst v.
+Proof. exact store_into_admits_same_layout. Qed.
+Print Assumptions C19_store_into_same_layout.
+
 (* Transaction and reference specs are not ARC-4 values (no encoding); for them the relation is:
    a transaction spec goes exactly to itself or to the generic `txn`; a reference spec exactly to itself;
    nothing else is assignable to or from them. *)
